@@ -278,7 +278,20 @@ impl World {
     }
 
     fn views(&mut self, l: usize) -> &Views {
-        if self.view_cache[l].is_none() { self.view_cache[l] = Some(all_views(&self.store, l as u64)); }
+        if self.view_cache[l].is_none() {
+            // the served-view queries run the real `get_cluster_by_name` / `get_proxy_by_address`; a panic there is a
+            // finding of its own, not a reason for the harness to die
+            let st = &self.store;
+            let r = catch_unwind(AssertUnwindSafe(|| all_views(st, l as u64)));
+            let v = match r {
+                Ok(v) => v,
+                Err(_) => {
+                    self.fail(format!("C01: a served view query panicked (limit {})", l), "");
+                    Views { clusters: BTreeMap::new(), proxies: BTreeMap::new() }
+                }
+            };
+            self.view_cache[l] = Some(v);
+        }
         self.view_cache[l].as_ref().expect("views")
     }
     fn observe(&mut self) {
@@ -423,6 +436,19 @@ impl World {
                     self.check_failover(failed, &bj, &aj, before, obs);
                 }
             }
+        }
+        // ---- C06 (g): balance_masters leaves chunks with a failed / reported proxy alone ---------------
+        if kind == "balance" && obs.starts_with("OK") {
+            if let Ok(cn) = ClusterName::try_from(toks[1]) { if let (Some(b), Some(a)) = (before.clusters.get(&cn), store.clusters.get(&cn)) {
+                for (cb, ca) in b.chunks.iter().zip(a.chunks.iter()) {
+                    let bad = cb.proxy_addresses.iter().any(|p| before.failed_proxies.contains(p) || before.failures.contains_key(p));
+                    if bad && ca.role_position != cb.role_position {
+                        self.fail(format!("C06: balance_masters reset a chunk with a failed/reported proxy ({},{}: {} -> {})",
+                            cb.proxy_addresses[0], cb.proxy_addresses[1], role_letter(cb.role_position), role_letter(ca.role_position)), "");
+                    }
+                    if bad { self.s.stats.count("balance.chunk_with_bad_proxy"); }
+                }
+            } }
         }
         // ---- C13: recovery --------------------------------------------------------------------
         if kind == "recover" {
